@@ -355,3 +355,94 @@ def check_bound_kind(ctx, fi, rule='R-CAP/bound-kind'):
                f'{v[1]}: that bounds the wrong quantity and the stored '
                'numbers wrap around')
     return n
+
+
+_WIDENERS = {'astype', 'int64', 'int', 'asarray', 'array', 'intp',
+             'uint64', 'float', 'float64'}
+
+
+def check_index_arithmetic_widened(ctx, fi,
+                                   rule='R-CAP/index-arithmetic-widened'):
+    """the index arrays of a sparse matrix travel in the narrowest integer
+    type that holds their values (`choose_int_dtype`); arithmetic on them
+    stays in that type.  A product of such an array -- taken from an
+    `indices` / `indptr` parameter as it came -- with a size (`len(..)`,
+    `.shape[..]`, a count derived from them) can exceed the array's own
+    type although every factor fits, and wraps around silently.  Such a
+    product is accepted only if the array operand was widened first
+    (`astype`, `np.int64(..)`, `np.asarray(.., dtype=..)`)."""
+    from ..core.defuse import Expander, rd_of
+    from ..core.cfg import cfg_of
+    from ..core import terms as T
+    idx_params = [p for p in fi.params if _member_of(p) in ('indices',
+                                                            'indptr')]
+    if not idx_params:
+        return 0
+    cfg = cfg_of(fi)
+    rd = rd_of(fi)
+    ex = Expander(fi)
+    n = 0
+    for node in cfg.nodes:
+        if node.id not in rd.live or node.ast is None or node.kind not in (
+                'stmt', 'return'):
+            continue
+        for e in ast.walk(node.ast):
+            if not (isinstance(e, ast.BinOp) and isinstance(e.op, ast.Mult)):
+                continue
+            sides = []
+            for side in (e.left, e.right):
+                try:
+                    t = ex.expand(side, node.id)
+                except Exception:
+                    t = None
+                sides.append(t)
+            if None in sides:
+                continue
+
+            def is_index_array(t):
+                ps = {x[1] for x in T.subterms(t)
+                      if isinstance(x, tuple) and x and x[0] == 'param'}
+                if not (ps & set(idx_params)):
+                    return False
+                for x in T.subterms(t):
+                    if isinstance(x, tuple) and x and x[0] == 'call':
+                        nm = T.call_name(x)
+                        if nm in _WIDENERS or nm in ('len', 'sum', 'max',
+                                                     'min', 'diff',
+                                                     'bincount', 'cumsum',
+                                                     'arange', 'repeat'):
+                            return False
+                    if isinstance(x, tuple) and x and x[0] == 'attr' \
+                            and x[2] in ('shape', 'size'):
+                        return False
+                # an element read (`indptr[i]`) is a scalar of the type
+                # too, but python scalars from h5py/numpy item access are
+                # not judged
+                return True
+
+            def is_size(t):
+                for x in T.subterms(t):
+                    if isinstance(x, tuple) and x and x[0] == 'call' \
+                            and T.call_name(x) == 'len':
+                        return True
+                    if isinstance(x, tuple) and x and x[0] == 'attr' \
+                            and x[2] in ('shape', 'size'):
+                        return True
+                return False
+            a, b = sides
+            pair = None
+            if is_index_array(a) and is_size(b):
+                pair = (e.left, e.right)
+            elif is_index_array(b) and is_size(a):
+                pair = (e.right, e.left)
+            if pair is None:
+                continue
+            n += 1
+            ctx.touch(fi)
+            ctx.fail(rule, f'{fi.qual}:product#{n - 1}', fi.loc(e),
+                     f'`{unparse(e)[:60]}` multiplies the index array '
+                     f'`{unparse(pair[0])[:30]}`, in whatever integer type '
+                     f'the caller stored it, by the size '
+                     f'`{unparse(pair[1])[:30]}`: the product can exceed '
+                     'that type and wraps around; widen the array first')
+    return n
